@@ -28,6 +28,10 @@ def _emit_tie_name():
     from ..translate import bocemit
     return bocemit.TIE_NAME
 
+def _regen_dict_cnt():
+    from ..translate import hashmapcnt
+    return hashmapcnt.regenerate()
+
 
 SPEC = dict(
     manifest=dict(
@@ -80,7 +84,13 @@ SPEC = dict(
              'c19_src_while_iterations reads the budget) and returns a valid order - a potential argument over the regenerated loop itself (Proofs/SrcOrderAny.lean), for either push order of the '
              'references; c19_src_serialize_poly (partial): with that budget the regenerated to_boc is the lookup + layout of exactly n keys carrying e references and the steps counted per loop '
              '(while, re-insertion, comprehension, serialize + references, index, CRC bytes) are <= 5(n+e)+1+len(output); the for-loops are counted by the lengths of the lists they iterate (read off '
-             'the proved equality with the layout model), not by an instrumented translation.',
+             'the proved equality with the layout model), not by an instrumented translation. '
+             'SOURCE TIE of the dictionary parser (c19_src_dict_erase, c19_src_dict_depth_le_keylen, c19_src_dict_output): the text pyrec.py regenerates from parse.py for parse / deserialize_hashmap_node '
+             'is put, by a visible textual transformation (harness/translate/hashmapcnt.py), into a counting monad - one tick per function entry, a flag at the fuel-exhaustion line (Generated/HashmapCnt.lean); '
+             'Lean proves for all inputs that this copy computes exactly the regenerated functions (so the transformation is not trusted for values), that for EVERY cell tree, int key length k and fuel >= 2k+2 the '
+             'fuel-exhaustion line is never reached (recursion depth <= k+1 levels: of the code as written, not of the cost model), and that on the tree unfolded from any well-formed cost-model graph its call count IS dictCalls of the cost model, with the same '
+             'returned / raised outcome - so c19_dict_output (4(entries+stops)-2 calls) and c19_dict_depth_le_keylen (<= 2^(n+2)-2 calls) are statements about parse.py. The tick placement is validated on every change: calls counted by Lean = calls CPython makes '
+             '(counting wrappers) on 271 cells. The unary-loop iterations (dictParse steps) and the BoC / TL / order counters remain cost model + measurement.',
         level_note='Trusted: Lean kernel (propext, Classical.choice, Quot.sound); Model/Cost.lean as a hand transcription of the loops of '
                    'cell.py (order, to_boc, __init__/calculate_hashes), deserialize.py, hashmap/parse.py, tl/generator.py (upper-bound '
                    'convention: validity failures that only cut work short are not modelled); harness/translate/tl_cost.py + TlEnv (the bundled '
@@ -88,12 +98,13 @@ SPEC = dict(
                    'on the sampled inputs only; the line count is a proxy for cost (C-level work invisible); harness/workmeter.py and the Python '
                    'harness.',
         technique='Lean 4 proof about a step-counting model + measured work inequality (sys.monitoring line counts) against the library '
-                  '+ source-regenerated TL guard / framing arithmetic',
+                  '+ source-regenerated TL guard / framing arithmetic + source-regenerated, call-counting copy of the dictionary parse recursion proved to make the calls the cost model counts',
     ),
     translators=[('bundled tl schemas->Generated/TlCostTable.lean', _regen_tl_cost_table),
                  ('tl/generator.py bytes framing + vector guard->Generated/TlFraming.lean', arith2.regenerator('TlFraming')),
                  ('deserialize.py deserialize_boc_header, deserialize_cell, deserialize->Generated/BocHeader.lean, BocCells.lean', _regen_boc_parser),
-                 (_emit_tie_name(), _regen_boc_emitter)],
+                 (_emit_tie_name(), _regen_boc_emitter),
+                 ('hashmap/parse.py parse + deserialize_hashmap_node->Generated/HashmapCnt.lean (calls counted)', _regen_dict_cnt)],
     lean_targets=['TonVerif.Proofs.SrcBocDeser', 'TonVerif.Proofs.SrcOrderAny', 'TonVerif.Proofs.SrcBocAny'],
     design_ref='DESIGN.md §6 C19',
     rule='one case = one public call on one adversarial input with its model step count; families: double/triple-ref chains 10..1000, '
@@ -104,6 +115,7 @@ SPEC = dict(
     trusted_base=['Model/Cost.lean mirrors the loop structure of Cell.order/to_boc, Boc.deserialize(_boc_header/_cell), hashmap.parse, '
                   'TlSchemas.deserialize by hand (cost only, upper-bound convention)',
                   'harness/workmeter.py: Python line events inside pytoniq_core are the unit of measured work',
+                  'harness/translate/hashmapcnt.py + lean/TonVerif/PyCnt.lean: where the ticks of the instrumented dictionary recursion are (one per entry of parse / deserialize_hashmap_node; validated against CPython call counts); pyrec.py / hashmapsrc.py / PyHm.lean as for C10',
                   'constants A,B per operation fixed in harness/props/C19.py (calibrated once, ~4x slack)',
                   'harness/translate/pyarith.py + arith.py/arith2.py and lean/TonVerif/PyBytes.lean + PyBytes2.lean for the c19_src_* theorems (the vector-length guard of '
                   'fix 110bf4a and the bytes-field skip arithmetic of TlSchemas.deserialize, regenerated from the source on every run and proved to be what '
@@ -1068,10 +1080,57 @@ def src_search(ctx):
     return len(ctx.failures) > n0
 
 
+def dict_calls_case(ctx, t, n, tag):
+    """property-level oracle on one cell tree (nested (type, bits, refs)): a `parse` that RETURNS on a tree of ordinary cells must have made
+    exactly 4*entries - 2 calls of parse + deserialize_hashmap_node (entries = keys of the result; output-bounded work), and never more than
+    2^(n+2) - 2; calls are counted on the real functions by wrappers."""
+    from ..translate import hashmapcnt, hashmapsrc
+    from pytoniq_core.boc.hashmap import parse as P
+    inp = {'kind': 'dict-calls', 'cell': _jsonable(t), 'n': n, 'tag': tag}
+    res = hashmapcnt.py_calls([(t, n)])[0]
+    status, calls = res.split()
+    calls = int(calls)
+    ctx.case(('dict-calls', repr(t), n), nontrivial=calls > 3, sample=inp)
+
+    def all_ordinary(x):
+        return x[0] == -1 and all(all_ordinary(r) for r in x[2])
+    if calls + 2 > 2 ** (n + 2):
+        ctx.fail('dict-calls:exceeds-2^(n+2)', 'the dictionary parser made more calls than any tree of this key length allows', inp, calls, f'<= {2 ** (n + 2) - 2}')
+    elif status == 'ok' and all_ordinary(t) and n >= 1:
+        try:
+            entries = len(P.parse_hashmap(hashmapsrc._py_slice(t), n))
+        except Exception:
+            return
+        if calls != 4 * entries - 2:
+            ctx.fail('dict-calls:not-output-bounded', 'parse + deserialize_hashmap_node calls of a returning parse differ from 4*entries - 2', inp, calls, 4 * entries - 2)
+
+
+def _jsonable(t):
+    return [t[0], t[1], [_jsonable(r) for r in t[2]]]
+
+
+def _tupled(t):
+    return (t[0], t[1], tuple(_tupled(r) for r in t[2]))
+
+
+def dict_src_search(ctx):
+    """Search mode only (a c19_src_dict_* obligation broke): the call counts of the real functions on the translator's validation cells,
+    judged by the output bound.  True = a concrete failing input was found."""
+    from ..translate import hashmapcnt
+    n0 = len(ctx.failures)
+    try:
+        for i, (t, n) in enumerate(hashmapcnt.validation_inputs()):
+            if n <= 40:
+                dict_calls_case(ctx, t, n, f'src-dict{i}')
+    except Exception as e:
+        ctx.notes.append(f'dictionary call-count search failed: {type(e).__name__}: {e}')
+    return len(ctx.failures) > n0
+
+
 def run(ctx):
     rng = ctx.rng
     t0 = time.time()
-    if ctx.search and src_search(ctx):
+    if ctx.search and (dict_src_search(ctx) or src_search(ctx)):
         return
     # ---- DAG shapes
     lens = [10, 20, 50, 100, 300, 1000] if not ctx.thorough else [10, 20, 21, 30, 50, 100, 200, 300, 500, 700, 1000]
@@ -1180,6 +1239,8 @@ def replay(ctx, payload):
         check_boc_bytes(ctx, bytes.fromhex(inp['boc']), inp.get('tag', 'replay'))
     elif 'dag' in inp and isinstance(inp['dag'], list):
         check_dag(ctx, [(k, b, tuple(r)) for k, b, r in inp['dag']], inp.get('family', 'replay'))
+    elif inp.get('kind') == 'dict-calls':
+        dict_calls_case(ctx, _tupled(inp['cell']), inp['n'], inp.get('tag', 'replay'))
     elif 'dict' in inp and isinstance(inp['dict'], list):
         check_dict(ctx, [(b, tuple(k), o) for b, k, o in inp['dict']], inp['key_len'], inp.get('tag', 'replay'))
     elif 'tl' in inp and ' bytes' not in inp['tl']:
